@@ -932,7 +932,7 @@ func runC19(w *World, r *Report) {
 				}, func(g guard) bool {
 					// "was not skipped before": a channel that already was skipped holds nothing any more (it gave its values up when it
 					// became skipped, and reportValues closes what arrives later)
-					fSkipped := w.Field("compose", "dagChannel", "Skipped")
+					fSkipped := dagSkipFlag(w)
 					return !g.pol && isLoadOfField(g.cond, fSkipped)
 				})
 				if rangesValues && guarded && len(extra) == 0 {
